@@ -95,7 +95,8 @@ pub struct ResidueCase {
     pub hash: HashId,
     /// 0 Seed, 1 SeedAndLmsTreeIdentifier, 2 ReferenceImplPrivateKey, 3 LmsPrivateKey,
     /// 4 LmotsPrivateKey (supplied chain values), 5 LmotsPrivateKey (derived by the library),
-    /// 6 Seed built through the public `Seed::from([u8; 32])` (all 32 caller-supplied bytes)
+    /// 6 Seed built through the public `Seed::from([u8; 32])` (all 32 caller-supplied bytes),
+    /// 7 ReferenceImplPrivateKey loaded from a key blob (valid or odd parameter bytes, live seed)
     pub ty: u8,
     pub tag: u64,
     pub w: u8,
@@ -124,12 +125,26 @@ pub fn check_residue(c: &ResidueCase) -> Verdict {
     id.copy_from_slice(&idv);
     let w = WS[c.w as usize % 4];
     let r: Result<bool, (String, String)> = with_hash!(c.hash, H => {
-        match c.ty % 7 {
+        match c.ty % 8 {
             6 => {
                 let full = secret_bytes(c.tag ^ 0xa11, 32);
                 let mut arr = [0u8; 32];
                 arr.copy_from_slice(&full);
                 residue_check::<hooks::Seed<H>>("Seed::from([u8; 32])", &|| Some(hooks::Seed::<H>::from(arr)), &[full.clone()])
+            }
+            7 => {
+                // a key object LOADED from bytes (what SigningKey / sign do on every call): live seed
+                // behind valid, end-marker-first, all-0xff or arbitrary parameter bytes
+                let mut blob = (c.tag >> 3).to_be_bytes().to_vec();
+                let params: Vec<u8> = match c.tag % 4 {
+                    0 => vec![0x53, 0x14, 0xff, 0xff, 0xff, 0xff, 0xff, 0xff],
+                    1 => vec![0xff, 0x53, 0x14, 0xff, 0xff, 0xff, 0xff, 0xff],
+                    2 => vec![0xff; 8],
+                    _ => gen::expand(c.tag ^ 0x9a9a, 8),
+                };
+                blob.extend_from_slice(&params);
+                blob.extend_from_slice(&seed);
+                residue_check::<hooks::ReferenceImplPrivateKey<H>>("ReferenceImplPrivateKey(loaded)", &|| hooks::ReferenceImplPrivateKey::<H>::from_binary_representation(&blob).ok(), &[seed.clone()])
             }
             0 => residue_check::<hooks::Seed<H>>("Seed", &|| Some(hooks::make_seed::<H>(&seed)), &[seed.clone()]),
             1 => residue_check::<hooks::SeedAndLmsTreeIdentifier<H>>("SeedAndLmsTreeIdentifier", &|| Some(hooks::make_seed_and_lms_tree_identifier::<H>(&seed, &id)), &[seed.clone()]),
@@ -138,7 +153,7 @@ pub fn check_residue(c: &ResidueCase) -> Verdict {
                 let params: Vec<hbs_lms::HssParameter<H>> = (0..l).map(|i| hbs_lms::HssParameter::<H>::new(libapi::lmots_alg(WS[(i + c.w as usize) % 4]), libapi::lms_alg(if i % 2 == 0 { 5 } else { 10 }))).collect();
                 residue_check::<hooks::ReferenceImplPrivateKey<H>>("ReferenceImplPrivateKey", &|| hooks::make_reference_impl_private_key::<H>(&params, &seed), &[seed.clone()])
             }
-            3 => residue_check::<hooks::LmsPrivateKey<H>>("LmsPrivateKey", &|| hooks::make_lms_private_key::<H>(&seed, &id, (c.tag % 32) as u32, libapi::lmots_alg(w), libapi::lms_alg(5)), &[seed.clone()]),
+            3 => residue_check::<hooks::LmsPrivateKey<H>>("LmsPrivateKey", &|| hooks::make_lms_private_key::<H>(&seed, &id, match c.tag % 5 { 0 => 32, 1 => 31, 2 => 33, _ => (c.tag % 32) as u32 }, libapi::lmots_alg(w), libapi::lms_alg(5)), &[seed.clone()]),
             4 => {
                 let p = crate::refmodel::ots::OtsParams::formula(n, w).p;
                 let count = 1 + (c.chains as usize % p);
@@ -156,7 +171,7 @@ pub fn check_residue(c: &ResidueCase) -> Verdict {
             }
         }
     });
-    let tname = ["Seed", "SeedAndLmsTreeIdentifier", "ReferenceImplPrivateKey", "LmsPrivateKey", "LmotsPrivateKey", "LmotsPrivateKey-derived", "Seed-from-array"][c.ty as usize % 7];
+    let tname = ["Seed", "SeedAndLmsTreeIdentifier", "ReferenceImplPrivateKey", "LmsPrivateKey", "LmotsPrivateKey", "LmotsPrivateKey-derived", "Seed-from-array", "ReferenceImplPrivateKey-loaded"][c.ty as usize % 8];
     match r {
         Ok(true) => pass(format!("{}|{}", tname, c.hash.name()), true),
         Ok(false) => pass(format!("vacuous|{}|{}", tname, c.hash.name()), false),
@@ -211,7 +226,7 @@ pub fn run(ctx: &Ctx) {
     ctx.random(
         "memory_residue",
         &|| {
-            (gen::hash_id(), 0u8..7, any::<u64>(), 0u8..4, any::<u16>(), 0u8..8)
+            (gen::hash_id(), 0u8..8, any::<u64>(), 0u8..4, any::<u16>(), 0u8..8)
                 .prop_map(|(hash, ty, tag, w, chains, levels)| ResidueCase { hash, ty, tag, w, chains, levels })
                 .boxed()
         },
@@ -222,7 +237,7 @@ pub fn run(ctx: &Ctx) {
     // every (type, hash) pair at least once, with the largest objects (W1)
     let mut grid: Vec<ResidueCase> = Vec::new();
     for h in ALL_HASHES {
-        for ty in 0..7u8 {
+        for ty in 0..8u8 {
             for w in 0..4u8 {
                 grid.push(ResidueCase { hash: h, ty, tag: 42 + w as u64, w, chains: 0xffff, levels: 7 });
             }
@@ -230,7 +245,7 @@ pub fn run(ctx: &Ctx) {
     }
     ctx.enumerate("type_hash_grid", grid.len() as u64, true, |i| grid[i as usize].clone(), check_residue);
     for h in ALL_HASHES {
-        for t in ["Seed", "SeedAndLmsTreeIdentifier", "ReferenceImplPrivateKey", "LmsPrivateKey", "LmotsPrivateKey", "LmotsPrivateKey-derived", "Seed-from-array"] {
+        for t in ["Seed", "SeedAndLmsTreeIdentifier", "ReferenceImplPrivateKey", "LmsPrivateKey", "LmotsPrivateKey", "LmotsPrivateKey-derived", "Seed-from-array", "ReferenceImplPrivateKey-loaded"] {
             ctx.require_class("type_hash_grid", &format!("{}|{}", t, h.name()));
         }
     }
